@@ -5,7 +5,7 @@ LEVEL = "exploration"
 def plan(tier, seed):
     quick = tier == "quick"
     nshards = 16
-    cases = 120 if quick else 5000
+    cases = 300 if quick else 5000
     return dict(
         builds=[("asan", "c15")],
         shards=[dict(bin=("asan", "c15"), args=["--cases", cases]) for _ in range(nshards)],
